@@ -55,10 +55,11 @@ func (node TlvSimpleNode) stringWithIndent(indent int) string {
 	sb.WriteString(indentString(indent))
 	sb.WriteString(fmt.Sprintf("%02x: %x", node.tag, node.value))
 	if node.tag == 0x06 {
-		// special handling for ASN1 OIDs
-		tmpOid := oid.DecodeAsn1objectId(node.value)
-		tmpOidDesc := oid.OidDesc(tmpOid)
-		sb.WriteString(fmt.Sprintf(" [%s: %s]", tmpOid.String(), tmpOidDesc))
+		// special handling for ASN1 OIDs (a value that is not a valid OID encoding is shown as plain bytes only)
+		if tmpOid, err := oid.ParseAsn1objectId(node.value); err == nil {
+			tmpOidDesc := oid.OidDesc(tmpOid)
+			sb.WriteString(fmt.Sprintf(" [%s: %s]", tmpOid.String(), tmpOidDesc))
+		}
 	} else if utils.PrintableBytes(node.value) {
 		// special handling for printable bytes
 		sb.WriteString(fmt.Sprintf(" [%s]", string(node.value)))
